@@ -11,7 +11,7 @@
   These are the shared lemmas behind C01 (failure consumes nothing), C05 (rollback),
   C14 (handler discipline), C16 (budget).
 -/
-import PigeonVerif.Model.Runtime
+import PigeonVerif.Proofs.PtInv
 
 namespace PV
 
@@ -53,6 +53,10 @@ def lastGlobal (E : Env) : List Event → Store
 /-- the parser itself never writes `globalStore` -/
 def GInv (E : Env) (s : PState) : Prop := s.global = lastGlobal E s.trace
 
+/-- the current savepoint and all memoized end savepoints are positions of the reader -/
+def PtInv (E : Env) (s : PState) : Prop :=
+  Reach E.input s.pt ∧ ∀ e ∈ s.memo, Reach E.input e.2.end
+
 /-- the part of the frame relation that composes (reflexive, transitive) -/
 structure Stk (E : Env) (s s' : PState) : Prop where
   cnt : s.exprCnt ≤ s'.exprCnt
@@ -66,6 +70,8 @@ structure Stk (E : Env) (s s' : PState) : Prop where
   bnd : ∀ n, E.opts.maxExpr = some n → s.exprCnt ≤ n → s'.exprCnt ≤ n
   /-- globalStore is whatever the most recent code block left -/
   ginv : GInv E s → GInv E s'
+  /-- the parser position and every memoized end position are reader positions -/
+  ptinv : PtInv E s → PtInv E s'
 
 /-- what is known of the state in which a panic was raised -/
 structure PanicPost (E : Env) (s s' : PState) : Prop where
